@@ -362,7 +362,11 @@ def check_case(case):
     out_all = r["stdout"] + "\n" + r["stderr"]
     for key in cfg["order"]:
         sc = cfg["sources"][key]
-        if sc["state"] != "ok" and not re.search(r"(?m)^\s*" + re.escape(sc["name"]) + r":", r["stdout"]):
+        # reported = some line of the output names the source (or its file) together with a problem word; wording, stream and layout are free
+        fn = f"{key.lower()}.csv"
+        lines_naming = [l for l in out_all.splitlines() if sc["name"] in l or fn in l]
+        problem = re.compile(r"(?i)not found|missing|error|cannot|can't|could not|unable|skip|unreadable|invalid|fail|no such|directory|decod|utf|warning|problem|does not exist")
+        if sc["state"] != "ok" and not any(problem.search(l) for l in lines_naming):
             viol.append({"kind": "unreadable-source-not-reported", "detail": {"deviations": labels, "source": sc["name"], "state": sc["state"], "stdout_head": r["stdout"][:400]}})
     if exp is None:
         outcomes.add("no-transactions")
@@ -400,12 +404,16 @@ def check_case(case):
                     continue
                 block = re.search(r"(?m)^" + re.escape(vname.upper()) + r" \((.*?)\)\n-+\n.*?\n-+\n(.*?)(?:\n\n|\Z)", r2["stdout"], re.S)
                 got_m = sorted(l[:28].strip() for l in block.group(2).splitlines() if l.strip() and not l.startswith("  ...")) if block else None
+                if block is None:
+                    outcomes.add("summary-layout-not-recognised")      # layout of the text summary is not part of the property; the HTML data below is judged
+                    continue
                 if got_m != sorted(members):
                     viol.append({"kind": "view-membership-differs-from-pipeline", "detail": {"deviations": labels, "view": vname, "expected": sorted(members), "got": got_m}})
             cur = cfg["currency"] or "${amount}"
             ref = money.totals(exp["txns"])
             want_line = cur.format(amount=f"{ref['spending']:,.0f}")
-            if want_line not in r2["stdout"]:
+            want_alt = cur.format(amount=f"{ref['spending']:,.2f}")
+            if want_line not in r2["stdout"] and want_alt not in r2["stdout"]:
                 viol.append({"kind": "currency-or-total-differs", "detail": {"deviations": labels, "expected_to_contain": want_line, "stdout_tail": r2["stdout"][-300:]}})
         elif cfg["views"] == "broken" and "views" not in (r2["stdout"] + r2["stderr"]).lower():
             viol.append({"kind": "broken-views-file-not-reported", "detail": {"deviations": labels, "stderr_tail": r2["stderr"][-300:]}})
